@@ -33,17 +33,18 @@ def cells(tier):
         free("dt", 10, 240)
         free("dt", 11, 240, sep="T")
     else:
+        # budgets sized so that the whole tier stays near one hour on 16 cores (the long dt cells do not exhaust anyway)
         for n in range(0, 12):
-            free("date", n, 2400)
+            free("date", n, 1200)
         for n in range(0, 9):
             free("tz", n, 300)
         for n in range(0, 15):
             free("time", n, 900)
         for n in range(0, 17):
-            free("dt", n, 3600)
+            free("dt", n, 1200)
         for n in (10, 11, 13, 14):
-            free("dt", n, 3600, sep="T")
-            free("dt", n, 3600, sep=" ")
+            free("dt", n, 1200, sep="T")
+            free("dt", n, 1200, sep=" ")
     return cs
 
 
